@@ -335,6 +335,7 @@ def c02(run):
     P = run.prog('rel')
     r_range.run(run, P)
     r_range.run_cbor(run, P)
+    r_range.run_cbor_reader(run, P)
     r_shift.run(run, P, units=('oscore.c', 'oscore_cbor.c'))
     r_stream.run_cap(run, P)
     r_parsegate.run(run, P)
@@ -351,7 +352,7 @@ def c02(run):
     run.assumptions = ASSUME_COMMON + [
         "absence of every out-of-bounds / use-after-free / UB for all byte strings and histories, termination and 'still answers afterwards' are NOT decided",
         "indices that are persistent reader state (hdr_ofs, http_ofs, data_ofs, partial_read) need a relational invariant and are declined (counted in stats)",
-        "the CBOR reader's own header reads (get_byte_inc without length test, up to 8 bytes) are not covered"]
+        "CBOR reader functions that only local files / configuration reach (persist loader, oscore conf) are not judged; the CBOR writers' assert-only capacity checks are not judged (the one wire-reachable overflow, compose_info, was repaired and is covered by replays/r10.c only)"]
     return run.finish(
         "Necessary conditions of memory safety on the receive surface, decided structurally: every index into a fixed-size array and every copy "
         "size into a fixed-size destination that derives from received bytes is proven in range by interval analysis, using the decoder's own "
